@@ -235,7 +235,23 @@ def check_function(chk, htu, row, cfg, callees, rule='R19.1'):
                 elif name in ('memcpy', 'memmove') and mr.mem_location(args[0]):
                     src = args[1][1] if isinstance(args[1], tuple) else args[1]
                     written.append((src, ('int', args[2] * 8 if isinstance(args[2], int) else None, False)))
-            if cls != 'atomic.cmpxchg' and not written:
+            # a native atomic and/or/xor on the raw cell with the byte-reversed operand: bitwise operators act on every bit on its own, so
+            # reversing the operand instead of the loaded and the stored value leaves the same bytes in memory (not so for add/sub: carries)
+            native_bitwise = False
+            for name, args, loc in ev:
+                if name == 'atomic' and isinstance(args[0], str) and re.match(r'__(atomic_fetch|sync_fetch_and)_(and|or|xor)$', args[0]) and \
+                        cls == 'atomic.rmw' and sem.get('op') in ('and', 'or', 'xor') and args[0].endswith('_' + sem.get('op')) and \
+                        is_sym(args[1]) and mr.mem_location(args[1]) and args[-1] == access:
+                    opnd = normalize_swaps(args[3], open_coded)
+                    top = pe.strip_casts(opnd)
+                    low = top.args[0] if (is_sym(top) and top.op == 'bswap%d' % access) else (top if want_n == 0 else None)
+                    while low is not None and is_sym(low) and low.op in ('bytes', 'cast'):
+                        if low.op == 'cast' and (ct.tinfo(low.ctype)[0] != 'int' or ct.tinfo(low.ctype)[1] < access):
+                            break
+                        low = low.args[0]
+                    if low is not None and is_sym(low) and low.op == 'unk' and low.args[0] == 'value':
+                        native_bitwise = True
+            if cls != 'atomic.cmpxchg' and not written and not native_bitwise:
                 probs.append('no store to linear memory on path %s' % p.cond_text())
             for val, ti in written:
                 val = normalize_swaps(val, open_coded)
@@ -267,7 +283,7 @@ def check_function(chk, htu, row, cfg, callees, rule='R19.1'):
                         probs.append('stored value contains a second reversal of something other than the loaded old value: %r' % (s,))
         if cls in ('atomic.rmw', 'atomic.cmpxchg'):
             names = [e[0] for e in ev]
-            touches = [i for i, e in enumerate(ev) if e[0] in ('store-sym', 'bswap', 'atomic', 'memcpy', 'memmove')
+            touches = [i for i, e in enumerate(ev) if e[0] in ('store-sym', 'atomic', 'memcpy', 'memmove')
                        or (e[0] == 'read' and e[1][1] == 'data')]
             if 'lock' not in names or 'unlock' not in names:
                 probs.append('read-modify-write is not a lock region of mem->mutex (events %r)' % names)
